@@ -69,6 +69,25 @@ def mutants(h, login):
     return out
 
 
+PREDECESSORS = ["header_only", "comment_only", "empty", "line_comment_only", None, None]
+
+
+def run_predecessor(kind, r):
+    """another file analysed just before, in the same process: the header state must not survive it"""
+    if kind is None:
+        return
+    if kind == "header_only":
+        h, _ = rand_header(r)
+        src = "\n".join(h) + "\n"
+    elif kind == "comment_only":
+        src = "/* just a comment */\n/* and another */\n"
+    elif kind == "line_comment_only":
+        src = "// nothing else\n"
+    else:
+        src = ""
+    core.api_run(r.choice(["pred.c", "pred.h"]), src, clock=False)
+
+
 def count_invalid(name, src):
     r = core.api_run(name, src, clock=False)
     if r.outcome != "ok":
@@ -86,6 +105,9 @@ def run_shard(spec):
         name = p.name
         h, login = rand_header(r)
         src = "\n".join(h) + "\n\n" + body
+        pk = PREDECESSORS[k % len(PREDECESSORS)]
+        run_predecessor(pk, r)
+        sh.tally("predecessors", str(pk))
         n, run = count_invalid(name, src)
         sh.case(src)
         sh.count("c13.template_instance_accepted")
@@ -97,17 +119,21 @@ def run_shard(spec):
         if k % 4 == 0 or spec["n"] > 100:
             for mname, hl in mutants(h, login):
                 src2 = ("\n".join(hl) + "\n\n" if hl else "") + body
+                pk = r.choice(PREDECESSORS)
+                run_predecessor(pk, r)
+                sh.tally("predecessors", str(pk))
                 n, run = count_invalid(name, src2)
                 sh.case(src2)
                 sh.count("c13.mutant_rejected_exactly_once")
                 sh.tally("cases", "mutant:" + mname)
                 if n != 1:
-                    sh.violation("mutant_count", (mname, str(n)), {"mode": "hdr", "name": name, "src": src2, "expect": 1},
-                                 {"mutant": mname, "count": n, "outcome": run.outcome})
+                    sh.violation("mutant_count", (mname, str(n)), {"mode": "hdr", "name": name, "src": src2, "expect": 1, "pred": pk},
+                                 {"mutant": mname, "count": n, "outcome": run.outcome, "predecessor": pk})
     return sh.result()
 
 
 def replay(case, sh):
+    run_predecessor(case.get("pred"), random.Random(0))
     n, run = count_invalid(case["name"], case["src"])
     sh.evaluations += 1
     if n != case["expect"]:
@@ -121,6 +147,6 @@ def finish(merged, tier, seed):
         inc.append("only %d template instances" % a.get("c13.template_instance_accepted", 0))
     if a.get("c13.mutant_rejected_exactly_once", 0) < 500:
         inc.append("only %d mutants" % a.get("c13.mutant_rejected_exactly_once", 0))
-    return {"inconclusive": inc, "coverage": {"cases": merged["cov"].get("cases")},
+    return {"inconclusive": inc, "coverage": {"cases": merged["cov"].get("cases"), "predecessor_files": merged["cov"].get("predecessors")},
             "summary": ["template instances %d, mutants %d (27 kinds)" % (a.get("c13.template_instance_accepted", 0),
                                                                         a.get("c13.mutant_rejected_exactly_once", 0))]}
